@@ -42,7 +42,8 @@ AnnKind(ann) == CASE ann \in {"Series[int]", "Optional[Series[int]]", "int"} -> 
                   [] ann = "Series[float]" -> "float64"
                   [] ann = "Series[str]" -> "str"
                   [] ann = "Index[int]" -> "int64"
-IsIndexAnn(ann) == ann = "Index[int]"
+                  [] ann = "Index[str]" -> "str"
+IsIndexAnn(ann) == ann \in {"Index[int]", "Index[str]"}
 IsOptional(ann) == ann = "Optional[Series[int]]"
 
 (* Field(...) variants: options and keyword checks *)
@@ -131,7 +132,10 @@ Compile(prog, k) ==
       strict |-> Opt(prog, k, "strict", "F"), coerce |-> Opt(prog, k, "coerce", "F"),
       ordered |-> Opt(prog, k, "ordered", "F"),
       name |-> OwnOpt(prog, k, "name", "class"),        \* "class" = the class's own __name__
-      amc |-> Opt(prog, k, "add_missing_columns", "F")]
+      amc |-> Opt(prog, k, "add_missing_columns", "F"),
+      (* the multiindex_* options describe the MultiIndex that two or more Index fields form; without one they mean nothing *)
+      mi |-> IF Len(xs) > 1 THEN [strict |-> Opt(prog, k, "multiindex_strict", "F"), coerce |-> Opt(prog, k, "multiindex_coerce", "F")]
+             ELSE [strict |-> "-", coerce |-> "-"]]
 
 ---------------------------------------------------------------------------
 M(p, n) == [pred |-> p, named |-> n]
@@ -147,8 +151,9 @@ RootPrs == {NoMethod, M("abs", FALSE)}
 Roots == {Cls(0, fa, fb, cfg, chk, dfc, prs) : fa \in RootFA, fb \in RootFB, cfg \in RootCfg, chk \in RootChk,
                                                   dfc \in RootDfc, prs \in RootPrs}
 KidFA == {Inherit, F("Series[float]", "ge1_le5"), F("Series[float]", "ge0_nona"), F("Series[int]", "omitted"), F("Series[int]", "unique"), F("Index[int]", "default")}
-KidFB == {Inherit, F("Series[str]", "nullable_coerce")}
-KidCfg == {{}, {<<"strict", "filter">>}, {<<"coerce", "F">>, <<"add_missing_columns", "T">>}, {<<"name", "kid">>}}
+KidFB == {Inherit, F("Series[str]", "nullable_coerce"), F("Index[str]", "default")}     \* a second Index field: a MultiIndex
+KidCfg == {{}, {<<"strict", "filter">>}, {<<"coerce", "F">>, <<"add_missing_columns", "T">>}, {<<"name", "kid">>},
+           {<<"multiindex_strict", "T">>, <<"multiindex_coerce", "T">>}}
 KidChk == {NoMethod, M("even", FALSE), M("even", TRUE)}
 KidDfc == {NoMethod, M("first_even", FALSE)}
 KidPrs == {NoMethod, M("plus1", FALSE)}
